@@ -743,6 +743,10 @@ func (g *Gen) opTrigBurst(conns []*Client) {
 			g.w.Exec(Op{K: "custom", S: name, M: "custom"})
 		}
 	}
+	if g.wt("call") > 0 && rapid.Bool().Draw(g.t, "callafter") {
+		// a call right after the trigger must not be decided on the cached verdict
+		g.w.Exec(Op{K: "creq", C: c.Idx, ID: g.nextID(c), M: "call." + rid + "." + g.sample("method", g.methods())})
+	}
 }
 
 var hostileTokens = []string{"a", "b", "t", "*", ">", "?", " ", "é", "", "a*", "*a", "a>", "\t", "\r\n", "\x00", "\x7f", "~", "!", "{cid}", "a b", "\xff", "%2E"}
